@@ -34,7 +34,7 @@
    they do on a disk. *)
 From Coq Require Import List NArith Bool Arith.
 From Coq Require Import Lia.
-From Verif Require Import C08.Model C08.Proofs C08.Spans C08.NameCheck C08.Beyond.
+From Verif Require Import C08.Model C08.Proofs C08.Spans C08.NameCheck C08.Beyond C08.TreeCheck.
 Import ListNotations.
 
 (* an engine built from a disk that holds configuration [d] in all the places
@@ -937,3 +937,72 @@ Proof.
   - exact R.
 Qed.
 Print Assumptions C08_rollback_fails_only_after_two_failures_in_the_suite.
+
+(* ---------------------------------------------------------------- the disk of a case is a tree
+   The hypothesis [tree (c_under pairs) d] of the corollary above is not left
+   to the harness: [run_case], the function every shard of the correspondence
+   suite evaluates, first decides it ([treeb], reflection TreeCheck.treeb_spec)
+   together with "no path is listed twice" ([distinct_keysb]) on the [before]
+   disk of the case, and answers with a mismatch (result code 3) when either
+   fails.  So every case counted as agreeing was run from a disk that is a
+   file system under the tree structure of the same case. *)
+Theorem C08_accepted_case_disk_is_a_tree :
+  forall hd before payload bads fault hints obs obs_spans pairs,
+    run_case (hd, before, payload, bads, fault, hints, obs, obs_spans, pairs) = None ->
+    tree (c_under pairs) (c_disk before) /\ NoDup (map fst (c_disk before)).
+Proof.
+  intros hd before payload bads fault hints obs obs_spans pairs R.
+  apply run_case_accepts_only_ok, case_before_ok_spec in R. tauto.
+Qed.
+Print Assumptions C08_accepted_case_disk_is_a_tree.
+
+(* hence, for the disk of a case the suite accepted, the corollary above holds
+   without its [tree] premise *)
+Corollary C08_rollback_fails_only_after_two_failures_on_an_accepted_case :
+  forall hd before payload bads fault hints obs obs_spans pairs,
+    run_case (hd, before, payload, bads, fault, hints, obs, obs_spans, pairs) = None ->
+    forall bad badm hs hint rq f s',
+      c_valid bad (c_disk before) = true -> c_metrics_ok badm (c_disk before) = true ->
+      run N N (fun c => c) N.eqb 0 0 (c_under pairs) (c_valid bad) (c_metrics_ok badm) true true hs hint rq
+          (c_disk before) f
+      = (RollbackFailed, s') ->
+      f <> NoFault /\
+      exists k, let new := new_disk N true (skipn k hs) rq (c_disk before) in
+                names_escape (r_payload rq) = true \/
+                type_conflict (c_under pairs) (r_payload rq) (c_disk before) = true \/
+                c_valid bad new = false \/ c_metrics_ok badm new = false.
+Proof.
+  intros hd before payload bads fault hints obs obs_spans pairs A bad badm hs hint rq f s' Vd Md R.
+  apply C08_accepted_case_disk_is_a_tree in A. destruct A as [T _].
+  exact (C08_rollback_fails_only_after_two_failures_in_the_suite pairs bad badm hs hint rq _ f s' T Vd Md R).
+Qed.
+Print Assumptions C08_rollback_fails_only_after_two_failures_on_an_accepted_case.
+
+(* the decision procedure is exact, for every tree structure and content type *)
+Theorem C08_tree_is_decided : forall (B : Type) under (d : disk B),
+  treeb under d = true <-> tree under d.
+Proof. intros B under d. apply treeb_spec. Qed.
+Print Assumptions C08_tree_is_decided.
+
+(* the test is not vacuous and not always false: [ex_disk_sub] (a disk with a
+   sub-directory) passes; a file standing where the directory of another file
+   is, and a path listed twice, are refused -- whatever the rest of the case
+   says (the gateway's answers in these three cases are never looked at) *)
+Definition ex_case_before (before : list (cpath * N)) (pairs : list (cpath * cpath)) : case :=
+  ((1%N, true, true), before, [], ([], []), None, ([], []), (true, [], []), [], pairs).
+
+Definition ex_case_tree : case :=
+  ex_case_before [((1, 7), 5); ((1, 8), 6); ((0, 1), 11)]%N [((1, 9), (1, 7))]%N.
+Definition ex_case_file_below_file : case :=
+  ex_case_before [((1, 9), 5); ((1, 7), 6)]%N [((1, 9), (1, 7))]%N.
+Definition ex_case_listed_twice : case :=
+  ex_case_before [((1, 7), 5); ((0, 1), 11); ((1, 7), 5)]%N [].
+
+Example C08_case_disk_test_is_not_vacuous :
+  (case_before_ok ex_case_tree,
+   run_case ex_case_file_below_file,
+   run_case ex_case_listed_twice,
+   treeb ex_under ex_disk_sub,
+   treeb ex_under ((ex_sub, 50%N) :: ex_disk_sub))
+  = (true, Some (3%N, [], [], []), Some (3%N, [], [], []), true, false).
+Proof. vm_compute; reflexivity. Qed.
